@@ -19,6 +19,7 @@ class Gen:
         self.maxdepth = maxdepth
         self.feat = features or set()
         self.used = {}
+        self.ntype = {}         # what kind of value a name was last bound to (a hint: shadowing may make it wrong)
 
     def note(self, k):
         self.used[k] = self.used.get(k, 0) + 1
@@ -59,15 +60,18 @@ class Gen:
         if top in ("c", "?") and sec in ("c", "?"):
             opts += [("arith", 5), ("cmpw", 3)]
         if top == sec and top in ("s", "q"):
-            opts += [("concat", 2), ("listpred", 3), ("cmpw", 1)]
+            opts += [("concat", 4), ("listpred", 3), ("cmpw", 1)]
+        elif top in ("s", "q", "?") and sec in ("s", "q", "?") and (top, sec) != ("?", "?") and "c" not in (top, sec) \
+                and not (top != sec and "?" not in (top, sec)):
+            opts += [("concat", 3), ("listpred", 1)]
         if top in ("s", "q", "a"):
             opts += [("length", 2), ("elem", 3), ("empty", 1)]
         if top == "a":
             opts += [("asetun", 2)]
         if top in ("a", "c") and sec == "a":
-            opts += [("asetbin", 3)]
+            opts += [("asetbin", 5)]
         if top == "c" and sec == "c":
-            opts += [("mkaset", 1)]
+            opts += [("mkaset", 2)]
         if top == "f":
             opts += [("apply", 4)]
         if env:
@@ -109,7 +113,8 @@ class Gen:
             ty = r.choice("cs")
             return "(" + ", ".join(self.lit(ty)[0] for _ in range(n)) + ")", ty
         if c < 0.7 and env:
-            return self.name_in(env), "?"
+            n = self.name_in(env)
+            return n, self.ntype.get(n, "?")
         if c < 0.8:
             a, _ = self.lit("c")
             b, _ = self.lit("c")
@@ -183,7 +188,8 @@ class Gen:
         return "apply", stk[:-1] + ["?"], env
 
     def g_read(self, stk, env, depth):
-        return self.name_in(env), stk + ["?"], env
+        n = self.name_in(env)
+        return n, stk + [self.ntype.get(n, "?")], env
 
     def g_alt(self, stk, env, depth):
         n = self.r.randint(2, 3)
@@ -234,11 +240,13 @@ class Gen:
             return self.g_lit(stk, env, depth)
         if self.r.random() < 0.8 or len(fresh) < 2:
             n = self.r.choice(fresh)
-            t, _ = self.push1(stk, env, depth)
+            t, ty = self.push1(stk, env, depth)
+            self.ntype[n] = ty
             return "let %s := %s;" % (n, t), stk, env + [n]
         a, b = self.r.sample(fresh, 2)
-        t1, _ = self.push1(stk, env, depth)
-        t2, _ = self.push1(stk, env, depth)
+        t1, ty1 = self.push1(stk, env, depth)
+        t2, ty2 = self.push1(stk, env, depth)
+        self.ntype[a], self.ntype[b] = ty1, ty2
         return "let %s %s := %s %s;" % (a, b, t1, t2), stk, env + [a, b]
 
     def g_subx(self, stk, env, depth):
@@ -248,12 +256,14 @@ class Gen:
             return self.g_lit(stk, env, depth)
         n = self.r.choice(fresh)
         t, s2 = self.sub(stk, env, depth, self.r.randint(1, 2))
+        self.ntype[n] = s2[-1] if s2 else "?"
         return "let %s := %s;" % (n, t), stk, env + [n]
 
     def g_binder(self, stk, env, depth):
         if not stk:
             return self.g_lit(stk, env, depth)
         n = self.r.choice(NAMES)
+        self.ntype[n] = stk[-1]
         body, s2 = self.sub(stk[:-1], [e for e in env if e != n] + [n], depth, self.r.randint(1, 2))
         form = self.r.choice(["(|%s| %s)", "[|%s| %s]", "?(|%s| %s)"])
         if form[0] == "(":
@@ -305,10 +315,11 @@ class Gen:
         r = self.r
         parts = []
         s = list(stk)
-        for _ in range(r.randint(1, 3)):
+        for _ in range(r.randint(1, 4)):
             c = r.random()
             if c < 0.3:
-                parts.append(r.choice(["a", "b ", "-", "x=", "%%"]))
+                parts.append(r.choice(["a", "b ", "-", "x=", "%%", " is smaller than ", ": a tail of some length ",
+                                       "".join(r.choice("abc xyz-") for _ in range(r.choice([3, 12, 15, 16, 17, 24, 31, 33])))]))
             elif c < 0.5 and s:
                 parts.append(r.choice(["%s", "%s", "%d", "%x", "%o", "%b"]))
                 s.pop()
@@ -322,6 +333,7 @@ class Gen:
         fresh = [n for n in NAMES if n not in env]
         if fresh and self.r.random() < 0.6:
             n = self.r.choice(fresh)
+            self.ntype[n] = "?"
             return "let %s := {%s};" % (n, body), stk, env + [n]
         return "{%s}" % body, stk + ["f"], env
 
